@@ -730,9 +730,10 @@ def geometric_verdict(piecesA, piecesB, tol, scale):
         return Verdict(False, "nan", d, "non-finite distance")
     if d <= thr:
         return Verdict(True, "approx", d)
-    delta = max(ABS_SLACK * scale, tol * 1e-4)
+    # lb is a certified lower bound already (the branch-and-bound gap delta only limits how tight it is)
+    delta = max(ABS_SLACK * scale, tol * 1e-5)
     lb, w = br.hausdorff_lower_bound(piecesA, piecesB, cands, delta)
-    if lb > thr + delta:
+    if lb > thr:
         return Verdict(False, "certified", lb, "certified Hausdorff lower bound %.9g > tol %.9g (sampled estimate %.9g) at %r" % (lb, tol, d, w))
     return Verdict(True, "certified-inside", lb)
 
@@ -1598,9 +1599,9 @@ def jobs(tier, seed):
     plan = [
         ("curve", 16, 7500, 48, 21000),
         ("curves", 10, 2500, 16, 12000),
-        ("qu2cu", 12, 2500, 32, 6000),
-        ("glyphs", 5, 400, 8, 2500),
-        ("pens", 5, 600, 8, 4000),
+        ("qu2cu", 12, 2500, 32, 12000),
+        ("glyphs", 5, 400, 16, 2500),
+        ("pens", 5, 600, 16, 4000),
     ]
     for kind, qj, qn, tj, tn in plan:
         nj, n = (tj, tn) if thorough else (qj, qn)
